@@ -314,13 +314,13 @@ class Conduct(core.Scenario):
 def ref_url(url, path, transport):
     u = urllib.parse.urlparse(url)
     scheme = {'polling': 'http', 'websocket': 'ws'}[transport] + ('s' if u.scheme in ('https', 'wss') else '')
-    return scheme, u.netloc, '/' + path.strip('/') + '/', urllib.parse.parse_qs(u.query, keep_blank_values=True)
+    return scheme, u.netloc, '/' + path.strip('/') + '/', sorted(urllib.parse.parse_qsl(u.query, keep_blank_values=True, encoding='latin-1'))
 
 
 def url_cases():
     for scheme, host, path, query, ep, tr in itertools.product(
             ['http', 'https', 'ws', 'wss'], ['h', 'h:8080', '[::1]:9'], ['', '/', '/x/y'],
-            ['', 'a=1', 'a=1&b=%20&c='], ['engine.io', '/engine.io/', 'a/b'], ['polling', 'websocket']):
+            ['', 'a=1', 'a=1&b=%20&c=', 'token=&debug&a=1&a=2', 'name=caf%E9&x=a%2Fb+c%26d'], ['engine.io', '/engine.io/', 'a/b'], ['polling', 'websocket']):
         yield ('%s://%s%s%s' % (scheme, host, path, ('?' + query) if query else ''), ep, tr)
 
 
@@ -354,9 +354,11 @@ def check_urls(impl, cases):
                     problems.append('EIO %r' % q.get('EIO'))
                 if q.get('transport') != [tr]:
                     problems.append('transport %r' % q.get('transport'))
-                for k, v in cq.items():
-                    if q.get(k) != v and not (v == [''] and k not in q):
-                        problems.append('caller query %s=%r became %r' % (k, v, q.get(k)))
+                # the caller's parameters, decoded byte for byte (blank values and value-less flags included), are all there
+                mine = sorted(kv for kv in urllib.parse.parse_qsl(g.query, keep_blank_values=True, encoding='latin-1')
+                              if kv[0] not in ('EIO', 'transport', 't'))
+                if mine != cq:
+                    problems.append('caller query %r became %r' % (cq, mine))
                 if problems:
                     out.append(('url_wrong', '%s client requested %r for connect(%r, engineio_path=%r, %s): %s'
                                 % (impl, got[0], url, ep, tr, '; '.join(problems)), url, ep, tr))
